@@ -52,6 +52,10 @@ pub struct MultiParams {
     /// operations of a second churn thread (listeners created and dropped concurrently with the first one's)
     #[serde(default)]
     pub churn2: Vec<ChurnOp>,
+    /// listeners created and dropped again (never polled) before the run's own listeners are created: the stream ids are
+    /// handed out first-vacated-last, so afterwards a listener's stream id differs from its position in the list of listeners
+    #[serde(default)]
+    pub predrop: usize,
 }
 
 #[derive(Clone, Debug)]
@@ -109,6 +113,11 @@ pub fn multi_body(p: &MultiParams, flush_and_end: bool, check_capacity: bool) ->
         let accepted = ch.send(id).accepted();
         let ret = ctx::stamp();
         shared.lock().unwrap().events.push(Ev { thread: 0, kind: EvKind::SendOp(Entry::Send), id, inv, ret, accepted, ended: false, intact: true, setter_invoked_on_reject: false, addr: 0, wakes_delivered: 0, wake_misses: 0 });
+    }
+    if p.predrop > 0 {
+        let early: Vec<_> = (0..p.predrop).map(|_| ch.create_stream()).collect();
+        drop(early);
+        ctx::fault_fired("stream_ids_shifted_by_earlier_listeners");
     }
     let mut handles = vec![];
     let first_listener: Arc<HLock<Option<shuttle::thread::JoinHandle<()>>>> = Arc::new(HLock::new(None));
@@ -596,11 +605,17 @@ pub fn draw_multi_params(rng: &mut Rng, tier: Tier, kinds: &[Kind], stream_grid:
     if kind != Kind::MultiMmapLog && rng.chance(1, 5) {
         sched.origin = u32::MAX - rng.below(3 * buffer as u64 + 2) as u32;
     }
-    MultiParams { sched, kind, buffer, max_streams, listeners, producers, hold: rng.below(3) as u32, spurious_poll: *rng.pick(&[0, 0, 64, 256]), waker_churn: rng.chance(1, 4), churn: vec![], presend: 0, churn2: vec![] }
+    let predrop = if kind != Kind::MultiMmapLog && max_streams > 1 && rng.chance(1, 3) { 1 + rng.below(max_streams as u64 - 1) as usize } else { 0 };
+    MultiParams { sched, kind, buffer, max_streams, listeners, producers, hold: rng.below(3) as u32, spurious_poll: *rng.pick(&[0, 0, 64, 256]), waker_churn: rng.chance(1, 4), churn: vec![], presend: 0, churn2: vec![], predrop }
 }
 
 pub fn shrink_multi(p: &MultiParams) -> Vec<MultiParams> {
     let mut out = vec![];
+    if p.predrop > 0 {
+        let mut q = p.clone();
+        q.predrop -= 1;
+        out.push(q);
+    }
     if p.producers.len() > 1 {
         for i in 0..p.producers.len() {
             let mut q = p.clone();
@@ -817,6 +832,8 @@ impl Scenario for C17 {
     fn generate(&self, rng: &mut Rng, tier: Tier) -> MultiParams {
         let mut p = draw_multi_params(rng, tier, &chan::MULTI_KINDS, &[4], 3);
         p.listeners = 2 + rng.below(2) as usize;
+        // the churn shapes (which stream id goes, which one comes) are told from the creation order: no shifted ids here
+        p.predrop = 0;
         p.churn = match rng.below(4) {
             0 => vec![ChurnOp::Add],
             1 => vec![ChurnOp::Add, ChurnOp::DropOwn],
@@ -913,6 +930,7 @@ impl Scenario for C10Recycle {
     fn generate(&self, rng: &mut Rng, tier: Tier) -> MultiParams {
         let mut p = draw_multi_params(rng, tier, &chan::MULTI_KINDS_NO_LOG, &[1, 2, 2], 2);
         p.listeners = p.max_streams;
+        p.predrop = 0;
         match rng.below(4) {
             0 => {
                 p.churn = vec![ChurnOp::DropLast, ChurnOp::AddWhenRoom];
